@@ -1,6 +1,7 @@
 """C11 - audio sources hand out successive whole-sample chunks, then None."""
 
 import io
+import random
 import math
 import os
 import shutil
@@ -15,8 +16,8 @@ from auditok.io import BufferAudioSource, RawAudioSource, StdinAudioSource, Wave
 
 ID = "C11"
 LEVEL = "exploration"
-TIERS = {"quick": {"shards": 16, "budget_s": 120, "random": 1200, "exh_len": 3},
-         "thorough": {"shards": 16, "budget_s": 900, "random": 60000, "exh_len": 5}}
+TIERS = {"quick": {"shards": 16, "budget_s": 120, "random": 1200, "exh_len": 3, "long": 25},
+         "thorough": {"shards": 16, "budget_s": 900, "random": 60000, "exh_len": 5, "long": 2500}}
 RULE = ("Operation histories on the four source kinds (BufferAudioSource, RawAudioSource, WaveAudioSource, StdinAudioSource fed "
         "through a real os.pipe by a writer that dribbles 1-7-byte, sample-unaligned chunks) run in lock-step on the same "
         "audio (widths 1/2/4, 1-3 channels, 0..40 samples).  Operations: read(n>0), read(negative), read(None), read(0), "
@@ -117,7 +118,9 @@ def run_history(ctx, kind, data, fmt, ops, tmpdir, rng):
     rate, width, channels = fmt
     bps = width * channels
     n = len(data) // bps
-    case = {"kind": kind, "fmt": list(fmt), "data": data.hex(), "ops": [list(o) for o in ops]}
+    case = {"kind": kind, "fmt": list(fmt), "data": (data.hex() if len(data) <= 4096 else None), "nbytes": len(data), "ops": [list(o) for o in ops]}
+    if len(data) > 4096:
+        case["data_is"] = "random.Random(data_seed).randbytes(nbytes); see long_buffer_histories"
     src, cleanup = make_source(kind, data, fmt, tmpdir, rng)
     m = Model(n, rate)
     nonempty = 0
@@ -311,10 +314,37 @@ def exhaustive(ctx, conf, tmpdir):
             return
 
 
+def long_buffer_histories(ctx, conf, tmpdir):
+    """seconds of audio at real-world rates: positions in milliseconds / seconds whose sample index is an exact integer
+    (so there is exactly one admissible answer) but whose floating-point route may not be."""
+    rng = ctx.rng("long")
+    for i in range(conf["long"]):
+        rate = rng.choice((8000, 16000, 44100, 48000, 22050, 100))
+        width, channels = rng.choice(((1, 1), (2, 1), (1, 2)))
+        n = 2 * rate + rng.randint(0, 50)
+        data_seed = rng.getrandbits(32)
+        data = random.Random(data_seed).randbytes(n * width * channels)
+        ops = [("open",)]
+        for _ in range(12):
+            r = rng.random()
+            if r < 0.45:
+                ms = rng.choice((rng.randint(0, 2000), rng.randint(-2000, 0), 1001, 1023, 9, 145, 350, 290))
+                ops += [("pos_ms", ms), ("getpos",), ("read", rng.randint(1, 5))]
+            elif r < 0.8:
+                k = rng.randint(-n, n)
+                t = rng.choice((k / rate, rng.randint(-2000, 2000) / 1000, rng.randint(0, 20000) / 10000))
+                ops += [("pos_s", t), ("getpos",), ("read", rng.randint(1, 5))]
+            else:
+                ops += [("pos", rng.randint(-n, n)), ("read", 3), ("getpos",)]
+        run_history(ctx, "buffer", data, (rate, width, channels), ops, tmpdir, rng)
+        ctx.count("long_buffer_histories")
+
+
 def run_shard(ctx):
     conf = TIERS[ctx.tier]
     tmpdir = tempfile.mkdtemp(prefix="vf-c11-")
     try:
+        long_buffer_histories(ctx, conf, tmpdir)
         exhaustive(ctx, conf, tmpdir)
         rng = ctx.rng("random")
         for i in range(conf["random"]):
@@ -348,5 +378,5 @@ def inconclusive(merged, tier):
     c = merged["counters"]
     need = ["chunks_checked", "reads_at_end", "io_errors_when_not_open", "position_reads", "position_sets", "position_index_errors",
             "negative_position_sets", "histories_buffer", "histories_raw", "histories_wav", "histories_stdin", "exhaustive_histories",
-            "ops_pos_s", "ops_pos_ms", "ops_rewind", "ops_close"]
+            "ops_pos_s", "ops_pos_ms", "ops_rewind", "ops_close", "long_buffer_histories"]
     return [f"monitor never observed {k}" for k in need if c.get(k, 0) == 0]
